@@ -12,6 +12,7 @@
     name registry is hygienic (checked on the live registry by every run, [tables_okb]). *)
 From Coq Require Import String Ascii ZArith List Bool.
 From KV Require Import Base Wire Cursor TextLex TextLexProofs TextFmt TextFmtProofs.
+From KV Require Import Schema SchemaSem FaithfulProofs Roundtrip TextRoundtrip.
 Import ListNotations.
 Open Scope Z_scope.
 
@@ -63,6 +64,33 @@ Theorem C04_faithful_read_back : forall (R : Type) (F : rawfmt R),
   (forall il el, faithful F il el -> read_list F il (el, false) = Ok (il, ([], false))).
 Proof. exact @read_faithful. Qed.
 Print Assumptions C04_faithful_read_back.
+
+(** Whole typed messages (any schema; the hand-written codecs included): a conforming message
+    written in XML / JSON and decoded from what the reader sees in that document is the SAME
+    message (so its binary TTLV encoding is byte-identical to the original's), nothing is
+    marked invalid, every element is consumed - provided its items are representable in the
+    format.  Composition of the writers' faithfulness with the struct-level round trip
+    (RoundtripCustoms.rt_all). *)
+Theorem C04_xml_message_roundtrip : forall S OPS ATTRS OBJS G, registry_ok G ->
+  forall fe fc st t tag v items st' sc,
+  enc_ty S fe st t tag v = Ok (items, st') -> conf_ty S OPS ATTRS OBJS fc st t tag v = Some sc ->
+  forallb xml_item_ok items = true -> lookahead t = false ->
+  snd (xml_forest G (xml_write G items) false) = false /\
+  forall fd, (fe + 2 * items_size items + 2 <= fd)%nat ->
+    dec_ty S OPS ATTRS OBJS (xml_fmt G) fd st t tag (fst (xml_forest G (xml_write G items) false), false)
+    = Ok (v, ([], false), st').
+Proof. exact xml_struct_roundtrip. Qed.
+Print Assumptions C04_xml_message_roundtrip.
+
+Theorem C04_json_message_roundtrip : forall S OPS ATTRS OBJS G, registry_ok G ->
+  forall fe fc st t tag v items st' sc,
+  enc_ty S fe st t tag v = Ok (items, st') -> conf_ty S OPS ATTRS OBJS fc st t tag v = Some sc ->
+  forallb json_item_ok items = true -> lookahead t = false ->
+  forall fd, (fe + 2 * items_size items + 2 <= fd)%nat ->
+    dec_ty S OPS ATTRS OBJS (json_fmt G) fd st t tag (map (json_relem G) (map (json_write1 G) items), false)
+    = Ok (v, ([], false), st').
+Proof. exact json_struct_roundtrip. Qed.
+Print Assumptions C04_json_message_roundtrip.
 
 (** ------------------------------------------------------------------------------------
     Scalar lexical round trips, for ALL numbers. *)
